@@ -75,6 +75,19 @@ def main():
                 ok = False
             os.remove(demo_dst)
             missing = suite(wt)
+            if missing and len(missing) <= 6:
+                # a timing-sensitive test may flicker on a busy machine: re-run what failed, alone
+                still = []
+                for tname in missing:
+                    pkg, test = tname.split("::", 1)
+                    top = test.split("/")[0]
+                    rel = "./" + pkg.replace("github.com/notaryproject/notation-go", "").lstrip("/")
+                    rc1, out1 = sh(["go", "test", "-count=1", "-vet=off", "-run", "^" + top + "$", rel], wt, 900)
+                    if rc1 != 0:
+                        still.append(tname)
+                if len(still) < len(missing):
+                    meta["ran"].append({"cmd": "re-run of flickering suite tests alone", "first_run_not_passing": missing, "still_not_passing": still})
+                missing = still
             meta["ran"].append({"cmd": "existing suite with patch vs BASELINE stable_pass", "not_passing": missing})
             print("[seed] suite with patch: %d stable tests not passing %s" % (len(missing), missing[:5]))
             if missing:
